@@ -142,10 +142,12 @@ func TestVerifC42(t *testing.T) {
 		}
 		// roots: the last tree plus a few others
 		var roots restic.IDs
-		roots = append(roots, trees[len(trees)-1].id)
-		for k := tp.Choose(3); k > 0; k-- {
+		// (roots that are subtrees of other roots, listed before or after them, possibly twice)
+		for k := []int{0, 1, 2, 5, 10}[tp.Choose(5)]; k > 0; k-- {
 			roots = append(roots, trees[tp.Choose(len(trees))].id)
 		}
+		top := tp.Choose(len(roots) + 1)
+		roots = append(roots[:top], append(restic.IDs{trees[len(trees)-1].id}, roots[top:]...)...)
 		// up to three trees reported as huge (all handled by the one dedicated worker)
 		if tp.Choose(2) == 0 {
 			for k := tp.Range(1, 3); k > 0; k-- {
